@@ -36,7 +36,10 @@ RULE = (
     "one evaluation = one user pipeline (or input+pipeline) through one checking entry point, decided by the "
     "documented-domain table; level 1 = every table value of every parameter of every built-in method alone "
     "(x 2 contexts x other parameters omitted/given x 2 entry points), level 2 = every pair of values of two "
-    "parameters of two different steps of an 8-step pipeline, histories = every order of <= 3 earlier checks; "
+    "parameters of two different steps of an 8-step pipeline (thorough: all table values and all 48 method "
+    "combinations; quick: the five values nearest the boundary, 4 method combinations covering every method), "
+    "histories = every order of <= 3 earlier checks (quick: length 3 over three different methods / forms only; "
+    "thorough: <= 4), full check_conf on files (quick: 3 of the 6 input bases); "
     "non-trivial = the pipeline departs from the all-default base in at least one place; distinct = distinct "
     "(entry point, user pipeline, verdict, digest of the returned configuration)"
 )
@@ -468,6 +471,11 @@ def spaces(tier, seed):
 
     variants = all_variants()
     variants = variants[seed % len(variants):] + variants[:seed % len(variants)]  # the seed only rotates the order
+    if tier == "quick":
+        # four variants in which every built-in method of the three multi-method kinds occurs at least once
+        q = [("sad", "ambiguity", "median"), ("census", "risk", "bilateral"),
+             ("zncc", "interval_bounds", "median_for_intervals"), ("ssd", "std_intensity", "median")]
+        variants = q[seed % 4:] + q[:seed % 4]
     # the methods of the steps that are not part of a pair do not matter: each (step.method.param, step.method.param)
     # combination is enumerated once (`seen`)
     level2 = []
@@ -490,17 +498,23 @@ def spaces(tier, seed):
     hist = []
     for n in range(0, maxlen + 1):
         for seq in itertools.product(range(len(events)), repeat=n):
+            if tier == "quick" and n == 3 and len({events[i][0] for i in seq}) < 3:
+                continue  # quick: length-3 histories over three different methods only
             hist.append({"sp": "hist-mc", "seq": [events[i] for i in seq]})
     ievents = ["list", "lgrid", "grids", "bad-list+rgrid", "bad-grid1"]
     hist_in = []
     for n in range(0, maxlen + 1):
         for seq in itertools.product(ievents, repeat=n):
+            if tier == "quick" and n == 3 and len(set(seq)) < 3:
+                continue
             hist_in.append({"sp": "hist-in", "seq": list(seq)})
     files = []
     for form in ("list", "lgrid", "grids"):
         for img in ("mono", "rgb"):
             for kind in KINDS:
                 for method in T.TABLE[kind]["methods"]:
+                    if tier == "quick" and (form, img) not in (("list", "mono"), ("grids", "rgb"), ("lgrid", "mono")):
+                        continue
                     files.append({"sp": "files", "form": form, "img": img, "kind": kind, "method": method})
     return [
         {"name": "base pipelines (omitted / written-out defaults) x metadata", "level": 0, "cases": level0, "chunk": 8},
